@@ -104,6 +104,11 @@ def pool_body(args):
                     msg = "[C13] task %s changed from final state %s to %s" % (pool.names.get(tid), first_final[tid].name, st.name)
                 if st in FINAL and tid not in first_final:
                     first_final[tid] = st
+                # once the pool is through with a cancelled / timed-out task, none of its processes keeps running
+                if st in (LocalStatus.CANCELLED, LocalStatus.KILLED) and tid in sched.tasks and sched.tasks[tid].done():
+                    pr_ = pool.proc_of(tid)
+                    if pr_ is not None and pr_.alive():
+                        msg = "[C13] task %s is %s and the pool is through with it, but its process is still running" % (pool.names.get(tid), st.name)
             # a free core is never left idle while a ready task waits (quiescent points only)
             if held < pool.max_cores:
                 for tid in list(sched.task_states):
